@@ -311,6 +311,8 @@ class CallMixin:
     # ------------------------------------------------------------------ contracts at call sites
     def heap_keys_of(self, heap: dict, spec) -> List[object]:
         if isinstance(spec, tuple):
+            if spec not in heap:
+                self.heap_get(heap, spec, self.heap_key_sort(spec))
             return [spec]
         m = self.tree.field(spec)
         t = self.field_type(m)
@@ -335,14 +337,28 @@ class CallMixin:
         for spec, refs in k.modifies_:
             for key in self.heap_keys_of(s2.heap, spec):
                 old = s2.heap[key]
-                if refs is None:
+                if isinstance(refs, S._FreshOnly):
+                    new = z3.Const(V.fresh_name("Hc_" + "_".join(str(x) for x in key)), old.sort())
+                    fr_r = z3.Const("fo_r", V.Ref)
+                    keep = z3.Select(self.alloc_arr(old_heap), fr_r)
+                    for r in (refs.refs(pre) if refs.refs is not None else []):
+                        keep = z3.And(keep, fr_r != (r.t if hasattr(r, "t") else r))
+                    s2.assume(z3.ForAll([fr_r], z3.Implies(keep, z3.Select(new, fr_r) == z3.Select(old, fr_r))))
+                    s2.heap[key] = new
+                elif refs is None:
                     s2.heap[key] = z3.Const(V.fresh_name("Hc_" + "_".join(str(x) for x in key)), old.sort())
+                    if key == ("alloc",):
+                        al_r = z3.Const("al_r", V.Ref)       # allocation only grows
+                        s2.assume(z3.ForAll([al_r], z3.Implies(z3.Select(old, al_r), z3.Select(s2.heap[key], al_r))))
                 else:
                     new = old
                     for r in refs(pre):
                         r = r.t if hasattr(r, "t") else r
                         new = z3.Store(new, r, z3.Const(V.fresh_name("Hc_" + "_".join(str(x) for x in key)), old.sort().range()))
                     s2.heap[key] = new
+        for key, arr in s2.heap.items():
+            if key in (("llen",), ("dlen",)) and (old_heap.get(key) is None or not arr.eq(old_heap[key])):
+                s2.assume(self.heap_array_wf(key, arr))
         out = []
         # exceptional outcomes
         for lbl, exc, when, iff in k.raises_:
@@ -380,6 +396,7 @@ class CallMixin:
         if v.ty.kind == "obj":
             self.assume_allocated(s, v)
             s.assume(self.class_domain(v))
+            self.assume_closed(s, v, 2)
         elif v.ty.kind == "opt" and v.ty.args[0].kind == "obj":
             inner = V.deopt(v)
             s.assume(z3.Or(v.none, z3.And(z3.Select(self.alloc_arr(s.heap), v.t), self.class_domain(inner))))
@@ -391,6 +408,60 @@ class CallMixin:
         elif v.ty.kind == "ntuple" and v.items:
             for x in v.items.values():
                 self.assume_wf(s, x)
+
+    def assume_closed(self, s: State, v: Val, depth: int) -> None:
+        """Heap closedness (a property of every Python heap): what an allocated object's fields refer to is allocated too.
+        Stated for the instance fields declared by the static class of `v` and its bases, `depth` levels deep."""
+        if depth <= 0 or v.ty.kind != "obj":
+            return
+        q = v.ty.args[0]
+        bases = {k for k in self.tree.cls(q).mro if k in self.tree.classes}
+        for m, (c, ann, val, f) in self.field_table().items():
+            if c.qualname not in bases:
+                continue
+            try:
+                t = self.field_type(m)
+            except (OutOfSubset, ExtractionError):
+                continue
+            inner = t.args[0] if t.kind == "opt" else t
+            if inner.kind not in ("obj", "list", "dict", "set"):
+                continue
+            try:
+                fv = self.read_field(s.heap, v, m, s)
+            except (OutOfSubset, ExtractionError):
+                continue
+            if inner.kind == "obj" and not self.reaches_collection(inner.args[0], depth - 1):
+                continue            # only chains that end in a list/dict/set matter for frame reasoning; keeps arithmetic VCs small
+            al = z3.Select(self.alloc_arr(s.heap), fv.t)
+            if t.kind == "opt":
+                s.assume(z3.Or(fv.none, al))
+            else:
+                s.assume(al)
+                if inner.kind == "obj":
+                    s.assume(self.class_domain(Val(inner, fv.t)))
+                    self.assume_closed(s, Val(inner, fv.t), depth - 1)
+
+    def reaches_collection(self, q: str, depth: int) -> bool:
+        if depth <= 0:
+            return False
+        key = ("reach", q, depth)
+        if key not in self.uf_cache:
+            self.uf_cache[key] = False
+            bases = {k for k in self.tree.cls(q).mro if k in self.tree.classes}
+            res = False
+            for m, (c, ann, val, f) in self.field_table().items():
+                if c.qualname not in bases:
+                    continue
+                try:
+                    t = self.field_type(m)
+                except (OutOfSubset, ExtractionError):
+                    continue
+                inner = t.args[0] if t.kind == "opt" else t
+                if inner.kind in ("list", "dict", "set") or (inner.kind == "obj" and self.reaches_collection(inner.args[0], depth - 1)):
+                    res = True
+                    break
+            self.uf_cache[key] = res
+        return self.uf_cache[key]
 
     # ------------------------------------------------------------------ iterator protocol
     def call_iter(self, it: Val, st: State, fr: Frame, node) -> List:
@@ -434,6 +505,12 @@ class CallMixin:
             s.heap[("llen",)] = z3.Store(s.heap[("llen",)], recv.t, n - 1)
             self.post_read(s, v)
             return self.val(s, v)
+        if name == "list.sort":
+            if args or set(kwargs) - {"key"}:
+                raise OutOfSubset("list.sort with positional arguments / reverse")
+            s = st.copy()
+            self.sort_model(s, recv, recv, kwargs.get("key"), fr, node)
+            return self.val(s, V.NONEV)
         if name == "dict.get":
             has = self.dict_has(st.heap, recv, args[0])
             v = self.dict_get(st.heap, recv, args[0])
@@ -596,6 +673,11 @@ class CallMixin:
                 return self.dec_arith(op2, args[1], args[0], st, fr, node, result_ty=PDEC)
         if q in ("decimal.getcontext",):
             return self.val(st, Val(Ty("ext", "DecimalContext"), z3.Const("decctx", V.Ref)))
+        if q == "builtins.sorted" and len(args) == 1 and args[0].ty.kind == "list" and not (set(kwargs) - {"key"}):
+            s = st.copy()
+            r = self.allocate(s, args[0].ty, "sorted")
+            self.sort_model(s, args[0], r, kwargs.get("key"), fr, node)
+            return self.val(s, r)
         if q == "builtins.sorted" or q == "builtins.max" or q == "builtins.min":
             raise OutOfSubset(f"{name}() without contract")
         if q == "copy.copy":
@@ -638,7 +720,99 @@ class CallMixin:
     def decimal_of_fstring(self, v: Val, st: State, fr: Frame, node, ty: Ty) -> List:
         raise OutOfSubset("Decimal(f-string) without contract")
 
+    # ------------------------------------------------------------------ A-SORT: list.sort / sorted are stable sorts by key
+    def key_term_fn(self, keyf: Optional[Val], et: Ty, st: State, fr: Frame, node):
+        """Returns f: element term -> (key term of an ordered sort).  The key function's real body is executed once on a fresh element;
+        its outcomes (dynamic dispatch on the element's class) are joined into one term."""
+        e = z3.Const(V.fresh_name("srt_e"), V.sort_of(et))
+        ev = Val(et, e)
+        if keyf is None:
+            outcomes = [("val", st, ev)]
+            base_len = len(st.pc)
+        else:
+            scratch = st.copy()
+            self.assume_wf(scratch, ev)
+            base_len = len(scratch.pc)
+            saved_emit, saved_n = self.emit, len(self.vcs)
+            self.emit = False
+            try:
+                outcomes = self.call_value(keyf, [ev], {}, scratch, fr, node)
+            finally:
+                self.emit = saved_emit
+                del self.vcs[saved_n:]
+        term = None
+        kind = None
+        for k, s2, v in reversed([o for o in outcomes if o[0] == "val"]):
+            if v.ty.kind == "datetime":
+                t, kd = V.DT.inst(v.t), "int"
+            elif v.ty.kind in ("int", "date"):
+                t, kd = v.t, "int"
+            elif v.ty.kind in ("dec", "float", "pdec"):
+                t, kd = v.t, "real"
+            elif v.ty.kind == "str":
+                t, kd = self.uf("str_rank", V.StrS, z3.RealSort())(v.t), "real"
+            else:
+                raise OutOfSubset(f"sort key of type {v.ty}")
+            if kind is not None and kd != kind:
+                raise OutOfSubset("sort key of mixed types")
+            kind = kd
+            cond = z3.And(*s2.pc[base_len:]) if len(s2.pc) > base_len else z3.BoolVal(True)
+            term = t if term is None else z3.If(cond, t, term)
+        if term is None:
+            raise OutOfSubset("sort key function has no normal outcome")
+        return lambda x: z3.substitute(term, (e, x))
+
+    def sort_model(self, s: State, src: Val, dst: Val, keyf: Optional[Val], fr: Frame, node) -> None:
+        """dst := stable sort of src by key (dst may be src).  Facts: same length; ordered; permutation (ghost bijection p/q);
+        stability; a list that is already ordered is left as it is."""
+        et = self.list_elem_ty(src)
+        key = self.key_term_fn(keyf, et, s, fr, node)
+        n = self.coll_len(s.heap, src)
+        old = z3.Select(self.list_arr(s.heap, src), src.t)
+        hk = ("lel", V.sort_key(V.sort_of(et)))
+        new = z3.Const(V.fresh_name("sorted_el"), old.sort())
+        s.heap[hk] = z3.Store(self.list_arr(s.heap, src), dst.t, new)
+        s.heap[("llen",)] = z3.Store(self.heap_get(s.heap, ("llen",), z3.ArraySort(V.Ref, z3.IntSort())), dst.t, n)
+        i, j = z3.Int("srt_i"), z3.Int("srt_j")
+        p = z3.Function(V.fresh_name("srt_p"), z3.IntSort(), z3.IntSort())
+        q = z3.Function(V.fresh_name("srt_q"), z3.IntSort(), z3.IntSort())
+        rng = lambda x: z3.And(0 <= x, x < n)
+        s.assume(z3.ForAll([i, j], z3.Implies(z3.And(0 <= i, i < j, j < n), key(z3.Select(new, i)) <= key(z3.Select(new, j)))))
+        s.assume(z3.ForAll([i], z3.Implies(rng(i), z3.And(rng(p(i)), q(p(i)) == i, z3.Select(new, i) == z3.Select(old, p(i))))))
+        s.assume(z3.ForAll([j], z3.Implies(rng(j), z3.And(rng(q(j)), p(q(j)) == j))))
+        s.assume(z3.ForAll([i, j], z3.Implies(z3.And(0 <= i, i < j, j < n, key(z3.Select(new, i)) == key(z3.Select(new, j))), p(i) < p(j))))
+        if et.kind == "obj":
+            # A-ANNOT for list elements: every element's dynamic class is a concrete subclass of the element type
+            s.assume(z3.ForAll([i], z3.Implies(rng(i), self.class_domain(Val(et, z3.Select(old, i))))))
+            s.assume(z3.ForAll([i], z3.Implies(rng(i), self.class_domain(Val(et, z3.Select(new, i))))))
+        already = z3.ForAll([i, j], z3.Implies(z3.And(0 <= i, i < j, j < n), key(z3.Select(old, i)) <= key(z3.Select(old, j))))
+        s.assume(z3.Implies(already, z3.ForAll([i], z3.Implies(rng(i), z3.Select(new, i) == z3.Select(old, i)))))
+        s.env["$sortperm"] = Val(ANY, None, items=[p, q])
+        if "A-SORT" not in " ".join(self.notes):
+            self.notes.append("A-SORT: list.sort/sorted = stable sort by key (same length, ordered, permutation, stable, identity on an ordered list)")
+
     def list_of(self, it: Val, st: State, fr: Frame, node) -> List:
+        if it.ty.kind == "opt":
+            it = V.deopt(it)
+        if it.ty.kind == "list":
+            # list(L): a fresh list with the same elements
+            s = st.copy()
+            r = self.allocate(s, it.ty, "lcopy")
+            n = self.coll_len(s.heap, it)
+            arr = self.list_arr(s.heap, it)
+            s.heap[("lel", V.sort_key(V.sort_of(self.list_elem_ty(it))))] = z3.Store(arr, r.t, z3.Select(arr, it.t))
+            s.heap[("llen",)] = z3.Store(s.heap[("llen",)], r.t, n)
+            return self.val(s, r)
+        if it.ty.kind == "obj":
+            k = S.CONTRACTS.get("builtins.list:" + it.ty.args[0])
+            if k is None:
+                for b in self.tree.cls(it.ty.args[0]).mro:
+                    k = S.CONTRACTS.get("builtins.list:" + b)
+                    if k is not None:
+                        break
+            if k is not None:
+                et = getattr(k, "elem_type", None)
+                return self.apply_contract(k, {"iterable": it}, V.ListT(et(self) if callable(et) else ANY), st, fr, node, k.target)
         raise OutOfSubset(f"list() over {it.ty} without contract")
 
     def shallow_copy(self, v: Val, st: State, fr: Frame, node) -> List:
@@ -789,7 +963,9 @@ class CallMixin:
             cond = z3.Select(alloc0, r) if alloc0 is not None else z3.BoolVal(True)
             if key in allowed:
                 refs = allowed[key]
-                if refs is None:
+                if isinstance(refs, S._FreshOnly):
+                    refs = refs.refs or (lambda s_: [])
+                elif refs is None:
                     continue
                 for x in refs(pre):
                     cond = z3.And(cond, r != (x.t if hasattr(x, "t") else x))
